@@ -153,10 +153,36 @@ static std::string body(const KCase& c) {
 		return nullptr;
 	};
 	vh::XorShift x(c.regSeed);
-	for (int round = 0; round < 3; ++round) {
+	// rounds 3-4: a single program whose IMMEDIATES are replaced by boundary values. Immediates are free 32-bit draws of the key-seeded
+	// generator (IROR_C: any non-zero count, IMUL_RCP: any divisor that is neither zero nor a power of two), independent of the instruction
+	// sequence, so such a program is still one a key can produce; encodable-immediate corners of the code generator (imm8 forms, sign
+	// extension, 0x7f/0x80/0xff.., rotation 32/63, 64-bit reciprocals) have probability ~2^-24 per program from random keys
+	static const uint32_t IMMS[] = {0, 1, 0x7f, 0x80, 0x81, 0xff, 0x100, 0x7fff, 0x8000, 0xffff, 0x10000, 0x7fffffffu, 0x80000000u, 0x80000001u, 0xffffff00u, 0xffffff7fu, 0xffffff80u, 0xffffff81u, 0xffffffffu, 0xffff0000u, 0xffff8000u, 0xabcd0000u};
+	static const uint32_t DIVS[] = {3, 5, 7, 0xffffffffu, 0x80000001u, 0x7fffffffu, 0xfffffffeu, 0x10001u, 0xffffu, 6, 0xc0000000u, 0xaaaaaaabu};
+	SuperscalarProgram mutated;
+	for (int round = 0; round < 5; ++round) {
 		int which = round == 0 ? -1 : (int)(x.next() % 8);   // -1: chain of all 8, else a single program
 		SuperscalarProgramList* L = progs;
-		if (which >= 0) { for (int i = 0; i < 8; ++i) (*single)[i].setSize(0); (*single)[0] = P[which]; L = single; }
+		SuperscalarProgram* one = which >= 0 ? &P[which] : nullptr;
+		if (round >= 3) {
+			mutated = P[which];
+			int changed = 0;
+			for (unsigned k = 0; k < mutated.getSize(); ++k) {
+				Instruction& in = mutated(k);
+				if (x.next() % 3) continue;
+				switch ((SuperscalarInstructionType)in.opcode) {
+				case SuperscalarInstructionType::IADD_C7: case SuperscalarInstructionType::IADD_C8: case SuperscalarInstructionType::IADD_C9:
+				case SuperscalarInstructionType::IXOR_C7: case SuperscalarInstructionType::IXOR_C8: case SuperscalarInstructionType::IXOR_C9:
+					in.setImm32(IMMS[x.next() % (sizeof IMMS / sizeof IMMS[0])]); ++changed; break;
+				case SuperscalarInstructionType::IROR_C: { static const uint32_t c[] = {1, 7, 8, 31, 32, 33, 63}; in.setImm32(c[x.next() % 7]);   /* the generator draws counts 1..63 only */ ++changed; break; }
+				case SuperscalarInstructionType::IMUL_RCP: { uint32_t d = DIVS[x.next() % (sizeof DIVS / sizeof DIVS[0])]; in.setImm32((uint32_t)rcp.size()); rcp.push_back(randomx_reciprocal(d)); ++changed; break; }
+				default: break;
+				}
+			}
+			one = &mutated;
+			if (!vh::st().replaying) vh::label("boundary-immediates-substituted", changed);
+		}
+		if (which >= 0) { for (int i = 0; i < 8; ++i) (*single)[i].setSize(0); (*single)[0] = *one; L = single; }
 		jit->enableWriting();
 		jit->generateSuperscalarHash(*L, rcp);
 		jit->enableExecution();
@@ -166,11 +192,11 @@ static std::string body(const KCase& c) {
 			uint64_t a[8], b[8];
 			for (int i = 0; i < 8; ++i) { uint64_t v = x.next(); switch (x.next() % 6) { case 0: v = 0; break; case 1: v = ~0ULL; break; case 2: v = 1ULL << (x.next() % 64); break; case 3: v = 0x8000000000000000ULL; break; default: break; } a[i] = b[i] = v; }
 			uint64_t in0[8]; memcpy(in0, a, 64);
-			if (which < 0) { for (int i = 0; i < 8; ++i) executeSuperscalar(a, P[i], &rcp); } else executeSuperscalar(a, P[which], &rcp);
+			if (which < 0) { for (int i = 0; i < 8; ++i) executeSuperscalar(a, P[i], &rcp); } else executeSuperscalar(a, *one, &rcp);
 			ss_tramp(entry, b, zeroCache());
 			if (memcmp(a, b, 64) != 0) {
 				int r = 0; while (a[r] == b[r]) ++r;
-				return std::string("native SuperscalarHash code and interpreter disagree (") + (which < 0 ? "chain of 8" : "program " + std::to_string(which)) + "): r" + std::to_string(r) + " interpreter=" + vh::u64s(a[r]) + " native=" + vh::u64s(b[r]) + " for inputs " + vh::hex(in0, 64);
+				return std::string("native SuperscalarHash code and interpreter disagree (") + (which < 0 ? "chain of 8" : "program " + std::to_string(which) + (round >= 3 ? " with boundary immediates" : "")) + "): r" + std::to_string(r) + " interpreter=" + vh::u64s(a[r]) + " native=" + vh::u64s(b[r]) + " for inputs " + vh::hex(in0, 64);
 			}
 			vh::label("native-vs-interpreter-runs");
 		}
